@@ -214,6 +214,7 @@ func ruleC08Text(e *Env) {
 			return pred.Tuple{pred.Sym{Name: "number"}, pred.Sym{Name: "unit"}}, nil
 		},
 		ns.String(): func(ev *pred.Evaluator, args []pred.Val) (pred.Val, error) {
+			args = e.Unpermuted("size", "newSize", ns, args)
 			return pred.Tuple{pred.Term{Fn: "newSize#0", Args: args}, pred.Term{Fn: "newSize#1", Args: args}}, nil
 		},
 	}
@@ -564,10 +565,15 @@ func ruleC08Object(e *Env) {
 		} else {
 			// every call (a fast path may duplicate it) takes exactly the two dereferenced parameters
 			ok := true
+			perm := e.ParamPerm("size", "newSize", ns) // newSize(value, unit) as recorded; perm[i] = position of recorded parameter i
 			for _, c := range calls {
 				okc := len(c.Call.Args) == 2
 				for i := 0; okc && i < 2; i++ {
-					u, isLoad := c.Call.Args[i].(*ssa.UnOp)
+					at := i
+					if perm != nil && len(perm) == 2 {
+						at = perm[i]
+					}
+					u, isLoad := c.Call.Args[at].(*ssa.UnOp)
 					okc = isLoad && u.Op == token.MUL && u.X == ssa.Value(noe.Params[i])
 				}
 				ok = ok && okc
